@@ -18,6 +18,8 @@ func init() {
 const pkgBRInfo = "pkg/scheduler/api/bindrequest_info"
 
 func runC12(c *Ctx) {
+	borrow(c, "O10", "C11", "O12", "", "the scheduler learns the outcome of a bind attempt only from the BindRequest's status: a failed bind persisted as Succeeded is never retried by the binder and never deleted by the scheduler, and the unbound pod stays Binding — charged to its node — for ever")
+	borrow(c, "O11", "C11", "O1", "pods/binding create is the last fallible step", "a step that can fail after the pod was bound turns a successful bind into a Failed request: the rollback strips the bound pod's GPU-group label, the scheduler deletes the terminally failed request, and later snapshots charge nothing for the running pod")
 	runC12ClaimName(c)
 	runC12NodePoolLabels(c)
 	borrow(c, "O6", "C11", "O4", "a recovered panic is reported as a failed attempt", "the status written for the hand-off must reflect the outcome of the attempt")
